@@ -132,6 +132,17 @@ class _signatures_for_sketch_factory:
             # no params str? default to a single sig, using default_moltype.
             self.params_list.append((default_moltype, {}))
 
+        # a sketch needs a size: refuse what MinHash() itself refuses (num=0 / scaled=0
+        # would silently give a sketch that stays empty whatever is added to it)
+        for moltype, params in self.params_list:
+            d = self.defaults[moltype]
+            if not params.get("num", d.get("num", 0)) and not params.get(
+                "scaled", d.get("scaled", 0)
+            ):
+                raise ValueError(
+                    "must set either num or scaled to a non-zero value"
+                )
+
     def get_compute_params(self, *, split_ksizes=False):
         for moltype, params_d in self.params_list:
             # get defaults for this moltype from self.defaults:
